@@ -441,23 +441,26 @@ def run(ctx):
     max_size = 4 if ctx.quick else 5
     small_arity = 1 if ctx.quick else 2
     shards = []
-    for parity in (0, 1):
-        for style in STYLES:
-            for size in range(1, max_size + 1):
-                # shard by the forms of the first (up to two) non-tail positions
-                depth = min(2, size - 1)
-                for prefix in itertools.product(HEAD_FORMS, repeat=depth):
-                    shards.append(("grid", prefix, size, parity, style, not ctx.quick))
-            for size in (1, 2):
-                count = len(small_options(size == 1, small_arity))
-                for index in range(count):
-                    shards.append(("small", size, index, small_arity, parity, style))
+    # quick: lazy-first + block, eager-first + flow; thorough: the full 2 x 2 product
+    variants = [(0, "block"), (1, "flow")] if ctx.quick else [
+        (parity, style) for parity in (0, 1) for style in STYLES]
+    for parity, style in variants:
+        for size in range(1, max_size + 1):
+            # shard by the forms of the first (up to two) non-tail positions
+            depth = min(2, size - 1)
+            for prefix in itertools.product(HEAD_FORMS, repeat=depth):
+                shards.append(("grid", prefix, size, parity, style, not ctx.quick))
+        for size in (1, 2):
+            count = len(small_options(size == 1, small_arity))
+            for index in range(count):
+                shards.append(("small", size, index, small_arity, parity, style))
     ctx.pmap(shard, shards, chunksize=1)
     ctx.meta.update(
         rule="YAML documents with a pipeline of n elements: every assignment of the forms "
              "%r (tail also 'typeargs' = __type__ with __args__) to the positions x 6 "
              "rotations of the argument values %r (two arguments per element) x "
-             "lazy/eager classes alternating over positions (2 parities) x %r notation x "
+             "lazy/eager classes alternating over positions (2 parities) x %r notation "
+             "(quick: parity 0 with block, parity 1 with flow; thorough: 2 x 2) x "
              "failing position in {none, 0..n-1} (%s); plus for n <= 2 every arity 0..%d "
              "with the full product of values; every document through load(path) and "
              "through load_pipeline(yaml.load(text, COBalDLoader)); non-trivial = at "
